@@ -143,3 +143,14 @@ UNITS.append(dict(name='C17.do_iteration', props=['C17'], kind='P', route='stub'
                 dict(name='_dbus_pending_call_get_completed_unlocked/_get_reply_serial_unlocked, _dbus_connection_peek_for_reply_unlocked, _dbus_transport_do_iteration', file='dbus/dbus-pending-call.c, ' + CONN + ', dbus/dbus-transport.c', status='stub', note='ghost shared state; lock-held preconditions checked')],
      assumptions=['rely condition on other threads: they change the awaited call only from not-completed to completed, queue or take its reply, and take or free the I/O path, and only while this thread does not hold the connection lock',
                   'termination of the untimed wait for the I/O path is not proved', 'expired_messages is empty at entry (loop of _dbus_connection_unlock unwound completely under that precondition)']))
+
+UNITS.append(dict(name='C17.outgoing_queue', props=['C17', 'C05', 'C03'], kind='P', route='stub', entry='harness',
+     tus=[dict(file=CONN, include_as='VERIF_TU')], harness='harness/c17_outq.c',
+     replace_calls={'_dbus_connection_do_iteration_unlocked': 'verif_stub_do_iteration', '_dbus_connection_wakeup_mainloop': 'verif_stub_wakeup'},
+     timeout=300, expect_s=10, must_have=['outq.in1', 'outq.in3', 'outq.ser1', 'outq.ord', 'outq.out2', 'outq.out4'],
+     functions=[dict(name='_dbus_connection_send_preallocated_unlocked_no_update, _dbus_connection_get_message_to_send, _dbus_connection_message_sent_unlocked', file=CONN, status='enforced', contract='FIFO by construction: in at the head only, out from the end only; serial non-zero (own or next client serial), reported; locked with final serial before the write-only iteration; wake-up iff still queued'),
+                dict(name='_dbus_connection_get_next_client_serial', file=CONN, status='inlined', note='real code (contract: C17.serial)'),
+                dict(name='_dbus_list_prepend_link/_append_link/_get_last(_link)/_get_first(_link)/_unlink', file='dbus/dbus-list.c', status='stub', note='which end of which list is used is the obligation'),
+                dict(name='_dbus_connection_do_iteration_unlocked, _dbus_connection_wakeup_mainloop', file=CONN, status='replaced', note='arguments logged; the iteration may drain the queue (contract: C17.do_iteration)'),
+                dict(name='dbus_message_ref/get_serial/set_serial/lock, _dbus_message_add_counter_link/_remove_counter, dbus_free', file='dbus/dbus-message.c', status='stub', note='ghost serial; counted and ordered')],
+     assumptions=[SEQ, 'client_serial != 0 (invariant)']))
